@@ -136,6 +136,37 @@ type vennEval struct {
 	naming func(v ssa.Value) string // optional: names for recognised bases
 	memo   map[ssa.Value]*sx
 	undec  []string
+	// byAddrCalls: a local whose address is handed to a call is a fresh base
+	// after that call (the callee may have rewritten it), named by the cell and
+	// the latest such call that dominates the load.
+	byAddrCalls bool
+}
+
+// evalBefore evaluates v; field loads inside v resolve to the latest store
+// dominating the load itself, so expressions computed before `at` see the
+// values the fields had then.
+func (ve *vennEval) evalBefore(v ssa.Value, at ssa.Instruction) *sx { return ve.eval(v) }
+
+// addrCallsBefore: calls that take the address of cell a and may execute before load.
+func (ve *vennEval) addrCallsBefore(a *ssa.Alloc, load ssa.Instruction) (latest ssa.Instruction, unordered bool) {
+	for _, ref := range *a.Referrers() {
+		ci, ok := ref.(ssa.CallInstruction)
+		if !ok {
+			continue
+		}
+		in := ref
+		if dominatesInstr(in, load) {
+			if latest == nil || dominatesInstr(latest, in) {
+				latest = in
+			}
+			continue
+		}
+		_ = ci
+		if p := FindPath(PathQuery{Fn: ve.fn, From: in, Target: func(x ssa.Instruction) bool { return x == load }}); p != nil {
+			unordered = true
+		}
+	}
+	return
 }
 
 func newVennEval(e *Engine, fn *ssa.Function, naming func(ssa.Value) string) *vennEval {
@@ -245,6 +276,15 @@ func (ve *vennEval) eval1(v ssa.Value) *sx {
 				return ve.baseFor(v, ve.objName(a.X)+"."+fieldOfAddr(a).Name())
 			case *ssa.Alloc:
 				sts := reachingStores(a, x)
+				if ve.byAddrCalls {
+					latest, unordered := ve.addrCallsBefore(a, x)
+					if unordered {
+						ve.undec = append(ve.undec, "local rewritten through its address on some paths only at "+ve.e.InstrPos(x))
+					}
+					if latest != nil && (len(sts) != 1 || dominatesInstr(sts[0], latest)) {
+						return ve.baseFor(v, fmt.Sprintf("%s@after:%s", a.Comment, ve.e.InstrPos(latest)))
+					}
+				}
 				if len(sts) == 1 {
 					return ve.eval(sts[0].Val)
 				}
@@ -322,3 +362,128 @@ func (ve *vennEval) storedValues(f *types.Var) []*ssa.Store {
 }
 
 func isCpusetNewCall(call *ssa.Call) bool { return isCpusetNew(call) }
+
+// ---- bit masks as sets ---------------------------------------------------------
+//
+// NodeMask / TypeMask values are sets of small integers manipulated with
+// | & &^; the same Venn decision procedure applies. maskEval maps an
+// integer-typed SSA value to a set expression.
+type maskEval struct {
+	e    *Engine
+	fn   *ssa.Function
+	memo map[ssa.Value]*sx
+	ve   *vennEval // for objName
+}
+
+func newMaskEval(e *Engine, fn *ssa.Function) *maskEval {
+	return &maskEval{e: e, fn: fn, memo: map[ssa.Value]*sx{}, ve: newVennEval(e, fn, nil)}
+}
+
+func (m *maskEval) eval(v ssa.Value) *sx {
+	if s, ok := m.memo[v]; ok {
+		return s
+	}
+	s := m.eval1(v)
+	m.memo[v] = s
+	return s
+}
+
+func (m *maskEval) eval1(v ssa.Value) *sx {
+	switch x := v.(type) {
+	case *ssa.Const:
+		if k, ok := constIntVal(x); ok {
+			if k == 0 {
+				return sxEmpty()
+			}
+			return sxBase(fmt.Sprintf("const:%d", k))
+		}
+	case *ssa.BinOp:
+		switch x.Op {
+		case token.OR:
+			return sxOr(m.eval(x.X), m.eval(x.Y))
+		case token.AND:
+			return sxAnd(m.eval(x.X), m.eval(x.Y))
+		case token.AND_NOT:
+			return sxDiff(m.eval(x.X), m.eval(x.Y))
+		}
+	case *ssa.Call:
+		name := "call"
+		if o := callObj(x.Common()); o != nil {
+			name = o.Name()
+		}
+		args := []string{}
+		for _, a := range callArgs(x) {
+			args = append(args, m.ve.objName(a))
+		}
+		return sxBase(name + "(" + strings.Join(args, ",") + ")")
+	case *ssa.Extract:
+		if c, ok := x.Tuple.(*ssa.Call); ok {
+			name := "call"
+			if o := callObj(c.Common()); o != nil {
+				name = o.Name()
+			}
+			return sxBase(fmt.Sprintf("%s#%d@%s", name, x.Index, m.e.InstrPos(c)))
+		}
+	case *ssa.UnOp:
+		if x.Op == token.MUL {
+			switch a := x.X.(type) {
+			case *ssa.FieldAddr:
+				return sxBase(m.ve.objName(a.X) + "." + fieldOfAddr(a).Name())
+			case *ssa.Alloc:
+				sts := reachingStores(a, x)
+				if len(sts) == 1 {
+					return m.eval(sts[0].Val)
+				}
+			}
+		}
+	case *ssa.Parameter:
+		return sxBase(x.Name())
+	case *ssa.ChangeType:
+		return m.eval(x.X)
+	case *ssa.Convert:
+		return m.eval(x.X)
+	}
+	return sxBase(fmt.Sprintf("value@%s#%p", m.e.Pos(v.Pos()), v))
+}
+
+// condFacts: the set-algebra facts implied by `cond == val` (equalities only).
+func (m *maskEval) condFacts(cond ssa.Value, val bool) []vennFact {
+	b, ok := cond.(*ssa.BinOp)
+	if !ok {
+		return nil
+	}
+	if (b.Op == token.EQL && val) || (b.Op == token.NEQ && !val) {
+		l, r := m.eval(b.X), m.eval(b.Y)
+		return []vennFact{subset(l, r), subset(r, l)}
+	}
+	return nil
+}
+
+// guardAssumption builds the adversarial assumption for "goal holds whenever
+// target is reached": a comparison whose one outcome implies the goal (given
+// `given`) is assumed to have the other outcome; everything else stays open.
+func (m *maskEval) guardAssumption(given []vennFact, goal []vennFact) Assumption {
+	return func(cond ssa.Value) (bool, bool) {
+		b, ok := cond.(*ssa.BinOp)
+		if !ok || (b.Op != token.EQL && b.Op != token.NEQ) {
+			return false, false
+		}
+		if bt, ok := b.X.Type().Underlying().(*types.Basic); !ok || bt.Info()&types.IsInteger == 0 {
+			return false, false
+		}
+		implT, implF := false, false
+		if f := m.condFacts(cond, true); f != nil {
+			implT, _ = vennHolds(append(append([]vennFact{}, given...), f...), goal)
+		}
+		if f := m.condFacts(cond, false); f != nil {
+			implF, _ = vennHolds(append(append([]vennFact{}, given...), f...), goal)
+		}
+		switch {
+		case implT && !implF:
+			return true, false
+		case implF && !implT:
+			return true, true
+		}
+		return false, false
+	}
+}
